@@ -1,7 +1,7 @@
 (* Prop_C07 — interpolate / gridding implement the documented kernel sums (statements only).
    The kernels are the terms GENERATED from sigpy/interp.py on this run. *)
 From Coq Require Import ZArith List Bool.
-From SV Require Import lib.Scalar lib.BigSum lib.LoopIR lib.Coord gen.Gen_interp proofs.Interp.
+From SV Require Import lib.Scalar lib.BigSum lib.LoopIR lib.Coord gen.Gen_interp proofs.Interp proofs.Interp2D3D.
 Import ListNotations.
 Local Open Scope Z_scope.
 
@@ -71,3 +71,115 @@ Proof. exact spline_order2. Qed.
 Theorem C07_spline_zero_outside : forall (C : COps) x order, cltb (@cofZ C 1) (cabs x) = true -> spline_kernel C x order = cofZ 0.
 Proof. exact spline_outside. Qed.
 Print Assumptions C07_spline_order2.
+
+(* ---- 2-D and 3-D kernels (proofs/Interp2D3D.v) ---- *)
+
+
+Theorem C07_interpolate2_is_the_separable_kernel_sum :
+  forall (R : StarRing) (C : COps) (kern : C -> C -> C) (wt : C -> R) input coord width param cs ish osh ps ws out b i,
+    0 <= b < shape_at ish 0 -> 0 <= i < shape_at cs 0 ->
+    exec (k_interpolate2 R C kern wt input coord width param cs ish osh ps ws) [] out [b; i] =
+    add (out [b; i])
+        (sumL (win C coord width cs ws (-2) i) (fun y => sumL (win C coord width cs ws (-1) i) (fun x =>
+           mul (wt (cmul (kw C kern coord width param cs ps ws (-2) i y) (kw C kern coord width param cs ps ws (-1) i x)))
+               (input [b; y mod shape_at ish 1; x mod shape_at ish 2])))).
+Proof. exact interp2_exec. Qed.
+
+Theorem C07_interpolate3_is_the_separable_kernel_sum :
+  forall (R : StarRing) (C : COps) (kern : C -> C -> C) (wt : C -> R) input coord width param cs ish osh ps ws out b i,
+    0 <= b < shape_at ish 0 -> 0 <= i < shape_at cs 0 ->
+    exec (k_interpolate3 R C kern wt input coord width param cs ish osh ps ws) [] out [b; i] =
+    add (out [b; i])
+        (sumL (win C coord width cs ws (-3) i) (fun z => sumL (win C coord width cs ws (-2) i) (fun y =>
+         sumL (win C coord width cs ws (-1) i) (fun x =>
+           mul (wt (cmul (cmul (kw C kern coord width param cs ps ws (-3) i z) (kw C kern coord width param cs ps ws (-2) i y))
+                         (kw C kern coord width param cs ps ws (-1) i x)))
+               (input [b; z mod shape_at ish 1; y mod shape_at ish 2; x mod shape_at ish 3]))))).
+Proof. exact interp3_exec. Qed.
+
+Theorem C07_gridding2_accumulates_the_same_weights :
+  forall (R : StarRing) (C : COps) (kern : C -> C -> C) (wt : C -> R) input coord width param cs ish osh ps ws out b my mx,
+    0 <= b < shape_at osh 0 ->
+    exec (k_gridding2 R C kern wt input coord width param cs ish osh ps ws) [] out [b; my; mx] =
+    add (out [b; my; mx])
+        (sumL (zrange 0 (shape_at cs 0) 1) (fun i =>
+           sumL (win C coord width cs ws (-2) i) (fun y => sumL (win C coord width cs ws (-1) i) (fun x =>
+             if (y mod shape_at osh 1 =? my) && (x mod shape_at osh 2 =? mx)
+             then mul (w2 R C kern wt coord width param cs ps ws i y x) (input [b; i]) else zero)))).
+Proof. exact gridding2_exec. Qed.
+
+Theorem C07_gridding3_accumulates_the_same_weights :
+  forall (R : StarRing) (C : COps) (kern : C -> C -> C) (wt : C -> R) input coord width param cs ish osh ps ws out b mz my mx,
+    0 <= b < shape_at osh 0 ->
+    exec (k_gridding3 R C kern wt input coord width param cs ish osh ps ws) [] out [b; mz; my; mx] =
+    add (out [b; mz; my; mx])
+        (sumL (zrange 0 (shape_at cs 0) 1) (fun i =>
+           sumL (win C coord width cs ws (-3) i) (fun z => sumL (win C coord width cs ws (-2) i) (fun y =>
+           sumL (win C coord width cs ws (-1) i) (fun x =>
+             if (z mod shape_at osh 1 =? mz) && (y mod shape_at osh 2 =? my) && (x mod shape_at osh 3 =? mx)
+             then mul (w3 R C kern wt coord width param cs ps ws i z y x) (input [b; i]) else zero))))).
+Proof. exact gridding3_exec. Qed.
+
+Theorem C07_interpolate2_frame :
+  forall (R : StarRing) (C : COps) (kern : C -> C -> C) (wt : C -> R) input coord width param cs ish osh ps ws out o,
+    (forall b i, 0 <= b < shape_at ish 0 -> 0 <= i < shape_at cs 0 -> o <> [b; i]) ->
+    exec (k_interpolate2 R C kern wt input coord width param cs ish osh ps ws) [] out o = out o.
+Proof. exact interp2_frame. Qed.
+
+Theorem C07_interpolate3_frame :
+  forall (R : StarRing) (C : COps) (kern : C -> C -> C) (wt : C -> R) input coord width param cs ish osh ps ws out o,
+    (forall b i, 0 <= b < shape_at ish 0 -> 0 <= i < shape_at cs 0 -> o <> [b; i]) ->
+    exec (k_interpolate3 R C kern wt input coord width param cs ish osh ps ws) [] out o = out o.
+Proof. exact interp3_frame. Qed.
+
+(* every axis window is "within half a width, ties included" *)
+Theorem C07_window_axis_is_half_width :
+  forall (C : COps) coord width cs ws (cle : C -> C -> Prop),
+    (forall (t : C) (z : Z), cceil t <= z <-> cle t (cofZ z)) ->
+    (forall (t : C) (z : Z), z <= cfloor t <-> cle (cofZ z) t) ->
+    forall d i t,
+      In t (win C coord width cs ws d i) <->
+      cle (csub (kax C coord cs d i) (cdiv (Wax C width ws d) (cofZ 2))) (cofZ t) /\
+      cle (cofZ t) (cadd (kax C coord cs d i) (cdiv (Wax C width ws d) (cofZ 2))).
+Proof. exact window_axis_is_half_width. Qed.
+
+Theorem C07_gridding2_is_transpose_of_interpolate2 :
+  forall (R : StarRing) (C : COps) (kern : C -> C -> C) (wt : C -> R),
+    (forall w, conj (wt w) = wt w) ->
+    forall coord width param cs ps ws gsh psh batch ny nx npts,
+    shape_at cs 0 = npts -> shape_at gsh 0 = batch ->
+    forall x y : list Z -> R,
+    shape_at gsh 1 = ny -> shape_at gsh 2 = nx -> 0 < ny -> 0 < nx ->
+      inner [batch; npts] (exec (k_interpolate2 R C kern wt x coord width param cs gsh psh ps ws) [] (fun _ => zero)) y =
+      inner [batch; ny; nx] x (exec (k_gridding2 R C kern wt y coord width param cs psh gsh ps ws) [] (fun _ => zero)).
+Proof. exact k_interp2_gridding2_adjoint. Qed.
+
+Theorem C07_gridding3_is_transpose_of_interpolate3 :
+  forall (R : StarRing) (C : COps) (kern : C -> C -> C) (wt : C -> R),
+    (forall w, conj (wt w) = wt w) ->
+    forall coord width param cs ps ws gsh psh batch nz ny nx npts,
+    shape_at cs 0 = npts -> shape_at gsh 0 = batch ->
+    forall x y : list Z -> R,
+    shape_at gsh 1 = nz -> shape_at gsh 2 = ny -> shape_at gsh 3 = nx -> 0 < nz -> 0 < ny -> 0 < nx ->
+      inner [batch; npts] (exec (k_interpolate3 R C kern wt x coord width param cs gsh psh ps ws) [] (fun _ => zero)) y =
+      inner [batch; nz; ny; nx] x (exec (k_gridding3 R C kern wt y coord width param cs psh gsh ps ws) [] (fun _ => zero)).
+Proof. exact k_interp3_gridding3_adjoint. Qed.
+
+Theorem C07_grid2_op_is_transpose_of_interp2_op :
+  forall (R : StarRing) (C : COps) (kern : C -> C -> C) (wt : C -> R),
+    (forall w, conj (wt w) = wt w) ->
+    forall coord width param cs ps ws batch ny nx npts, 0 < nx -> 0 < ny ->
+    forall x y : list Z -> R,
+      inner [batch; npts] (interp2_op R C kern wt coord width param cs ps ws ny nx x) y =
+      inner [batch; ny; nx] x (grid2_op R C kern wt coord width param cs ps ws ny nx npts y).
+Proof. exact interp2_gridding2_adjoint. Qed.
+
+Theorem C07_grid3_op_is_transpose_of_interp3_op :
+  forall (R : StarRing) (C : COps) (kern : C -> C -> C) (wt : C -> R),
+    (forall w, conj (wt w) = wt w) ->
+    forall coord width param cs ps ws batch nz ny nx npts, 0 < nx -> 0 < ny -> 0 < nz ->
+    forall x y : list Z -> R,
+      inner [batch; npts] (interp3_op R C kern wt coord width param cs ps ws nz ny nx x) y =
+      inner [batch; nz; ny; nx] x (grid3_op R C kern wt coord width param cs ps ws nz ny nx npts y).
+Proof. exact interp3_gridding3_adjoint. Qed.
+Print Assumptions C07_gridding3_is_transpose_of_interpolate3.
